@@ -182,6 +182,14 @@ func customDoc(r *rand.Rand) *etree.Document {
 	if r.IntN(2) == 0 {
 		d.Indent(2)
 	}
+	switch r.IntN(4) {
+	case 0:
+		d.WriteSettings.CanonicalEndTags = true
+	case 1:
+		d.WriteSettings.AttrSingleQuote = true
+	}
+	root.CreateElement("Blank").SetText(" ")
+	d.CreateComment(" trailing ")
 	return d
 }
 
@@ -233,13 +241,18 @@ func runC14(c *mon.Ctx) {
 		var out, wantDoc, idpURL string
 		signing := false
 		var err error
+		var heldDoc *etree.Document
 		pv, stack := mon.Guard(func() {
 			idpURL = idp.url
 			var doc *etree.Document
+			defer func() { heldDoc = doc }()
 			mkAuthn := func() {
-				if r.IntN(5) == 0 {
+				switch r.IntN(6) {
+				case 0:
 					doc = customDoc(r)
-				} else {
+				case 1:
+					doc, err = sp.BuildAuthRequestDocument() // an already signed document handed to the URL builder
+				default:
 					doc, err = sp.BuildAuthRequestDocumentNoSig()
 				}
 				if err == nil {
@@ -269,10 +282,13 @@ func runC14(c *mon.Ctx) {
 					signing = sp.SignAuthnRequests
 				}
 			case "BuildLogoutURLRedirect":
-				if r.IntN(5) == 0 {
+				switch r.IntN(6) {
+				case 0:
 					doc = customDoc(r)
-				} else {
-					doc, err = sp.BuildLogoutRequestDocumentNoSig("user@example.org", "_s1")
+				case 1:
+					doc, err = sp.BuildLogoutRequestDocument(o.draw(r, "user@example.org", false), "_s1")
+				default:
+					doc, err = sp.BuildLogoutRequestDocumentNoSig(o.draw(r, "user@example.org", false), "_s1")
 				}
 				if err == nil {
 					wantDoc, err = doc.WriteToString()
@@ -293,6 +309,13 @@ func runC14(c *mon.Ctx) {
 		}
 		cs.Input([]byte(out))
 		cs.Nontrivial(cs.Description())
+		if heldDoc != nil && wantDoc != "" {
+			if after, _ := heldDoc.WriteToString(); after != wantDoc {
+				cs.Outcome("input-document-changed")
+				cs.Violation("caller-document-modified", "%s changed the document it was given:\n before %s\n after  %s", flow, trunc(wantDoc, 300), trunc(after, 300))
+				continue
+			}
+		}
 		key, msg, infl := checkRedirectURL(out, idpURL, relay, wantDoc, signing, ksp, alg.Hash)
 		if key == "" && wantDoc == "" {
 			// flows that build the document themselves: it must be the configured AuthnRequest
